@@ -852,6 +852,9 @@ private:
    */
   void reduce_num_cst_to_bool(const variable_t &x,
 			      const linear_constraint_t &cst) {
+    // x is overwritten: constraints recorded for its old value are stale
+    m_bool_to_lincsts -= x;
+    m_bool_to_refcsts -= x;
     if (cst.is_tautology()) {
       m_product.first().set_bool(x, boolean_value::get_true());
     } else if (cst.is_contradiction()) {
@@ -883,6 +886,9 @@ private:
    */  
   void reduce_ref_cst_to_bool(const variable_t &x,
 			      const reference_constraint_t &cst) {
+    // x is overwritten: constraints recorded for its old value are stale
+    m_bool_to_lincsts -= x;
+    m_bool_to_refcsts -= x;
     if (cst.is_tautology()) {
       m_product.first().set_bool(x, boolean_value::get_true());
     } else if (cst.is_contradiction()) {
